@@ -9,8 +9,8 @@ M9 (grouping part) — SQLAlchemy's parenthesisation policy as a function on ope
     unless  operand.operator is against  and  is_natural_self_precedent(operand.operator)
 
 The renderer never looks at `parentheses` flags of the AST, so user parentheses are dropped first.
-The bounds of BETWEEN are *not* grouped at all (`_between_impl` builds its `ExpressionClauseList`
-with `group=False`).  `and_` / `or_` flatten nested lists of the same operator, which prints like a
+SQLAlchemy does not group the bounds of BETWEEN (`_between_impl`: `group=False`); since ec71c9a the
+renderer does it itself (`lim.self_group(against=between_op)`), which is what `saParens` transcribes.  `and_` / `or_` flatten nested lists of the same operator, which prints like a
 natural self precedent on both sides.
 
 The ranks (`_PRECEDENCE`) and the natural flags are generated (`Gen/SaPrec.lean`).  Core Lean only.
@@ -26,6 +26,10 @@ structure Policy where
   /-- the prefix operator groups *every* `BinaryExpression` operand, whatever its rank
   (`BinaryExpression._negate`: `self.self_group()._negate()` when the operator has no `negate`) -/
   preAll : Nat → Bool
+  /-- the renderer itself groups both operands of this binary operator against a rank before
+  building it: `(rank, exempt)`.  `||` (75aca2f): `arg.self_group(against=operators.mul)` = rank 8, and
+  an operand built with `*` itself is exempt (`is_precedent(mul, mul)` is false: natural self precedent) -/
+  extra : Nat → Option (Nat × Option Nat)
 
 /-- `_PRECEDENCE` of the top operator of an operand (`none`: column, literal, `Grouping`) -/
 def head (π : Policy) : Expr → Option Nat
@@ -49,7 +53,16 @@ def sameNat (π : Policy) (o : Nat) : Expr → Bool
 
 /-- grouping of an operand of the binary operator `o` -/
 def needsB (π : Policy) (o : Nat) (e : Expr) : Bool :=
-  !sameNat π o e && needs π (π.rkBin o) e
+  !sameNat π o e && (needs π (π.rkBin o) e ||
+    (match π.extra o with
+      | some (k, x) => needs π k e && !(match x, e with | some x, .bin o' _ _ => o' == x | _, _ => false)
+      | none => false))
+
+/-- the rank every bare operand of `o` exceeds (`_PRECEDENCE[o]`, or the renderer's own rank if larger) -/
+def grp (π : Policy) (o : Nat) : Nat :=
+  match π.extra o with
+  | some (k, none) => max k (π.rkBin o)
+  | _ => π.rkBin o
 
 def isBin : Expr → Bool
   | .bin _ _ _ => true
@@ -68,47 +81,41 @@ def saParens (π : Policy) : Expr → Expr
     .bin o (wrapIf (needsB π o (saParens π l)) (saParens π l))
            (wrapIf (needsB π o (saParens π r)) (saParens π r))
   | .btw x y z =>
-    .btw (wrapIf (needs π π.rkBtw (saParens π x)) (saParens π x)) (saParens π y) (saParens π z)
-
-/-- rank of the operand's top operator is strictly above `k` (or it has none) -/
-def above (π : Policy) (k : Nat) (e : Expr) : Bool :=
-  match head π e with
-  | none => true
-  | some r => decide (k < r)
+    .btw (wrapIf (needs π π.rkBtw (saParens π x)) (saParens π x))
+         (wrapIf (needs π π.rkBtw (saParens π y)) (saParens π y))
+         (wrapIf (needs π π.rkBtw (saParens π z)) (saParens π z))
 
 /-- the trees for which the printed text is claimed to regroup to the *same tree*:
-* no right operand built with the parent's own natural-self-precedent operator
-  (`a + (b + c)` is printed `a + b + c`: another tree with the same value, see `Props/C06`),
-* bounds of BETWEEN are built from operators that bind tighter than BETWEEN
-  (SQLAlchemy does not group them: `x BETWEEN (a OR b) AND c` loses its parentheses). -/
+no right operand built with the parent's own natural-self-precedent operator
+(`a + (b + c)` is printed `a + b + c`: another tree with the same value, see `Props/C06`). -/
 def saOk (π : Policy) : Expr → Bool
   | .atom _ => true
   | .paren e => saOk π e
   | .pre _ e => saOk π e
   | .bin o l r => saOk π l && saOk π r && !sameNat π o (saParens π r)
-  | .btw x y z =>
-    saOk π x && saOk π y && saOk π z &&
-    above π π.rkBtw (saParens π y) && above π π.rkBtw (saParens π z)
+  | .btw x y z => saOk π x && saOk π y && saOk π z
 
-/-- productions of the fragment with their SQLAlchemy rank -/
-def prods (π : Policy) (P : Table) (F : Fragment) : List (Prec × Nat) :=
-  F.bins.map (fun o => (P.binProd o, π.rkBin o)) ++ F.pres.map (fun o => (P.preProd o, π.rkPre o)) ++
-    [(P.btwProd, π.rkBtw)]
+/-- productions of the fragment: (precedence in the engine, SQLAlchemy rank as an operand, rank its
+own operands are grouped against) -/
+def prods (π : Policy) (P : Table) (F : Fragment) : List (Prec × Nat × Nat) :=
+  F.bins.map (fun o => (P.binProd o, π.rkBin o, grp π o)) ++
+    F.pres.map (fun o => (P.preProd o, π.rkPre o, π.rkPre o)) ++ [(P.btwProd, π.rkBtw, π.rkBtw)]
 
-/-- lookahead operator tokens of the fragment with their SQLAlchemy rank -/
-def las (π : Policy) (P : Table) (F : Fragment) : List (Nat × Nat) :=
-  F.bins.map (fun a => (a, π.rkBin a)) ++ [(P.btwTok, π.rkBtw)]
+/-- lookahead operator tokens of the fragment, with the same two ranks -/
+def las (π : Policy) (P : Table) (F : Fragment) : List (Nat × Nat × Nat) :=
+  F.bins.map (fun a => (a, π.rkBin a, grp π a)) ++ [(P.btwTok, π.rkBtw, π.rkBtw)]
 
-/-- **Compatible**: wherever SQLAlchemy's ranks leave an operand without parentheses, the target
-engine's precedence table `P` keeps it grouped.  Finite and decidable. -/
+/-- **Compatible**: wherever SQLAlchemy's ranks (and the renderer's own groupings) leave an operand
+without parentheses, the target engine's precedence table `P` keeps it grouped.
+Finite and decidable. -/
 def compatible (π : Policy) (P : Table) (F : Fragment) : Bool :=
   (prods π P F).all (fun pr => (las π P F).all fun la =>
-    (!decide (la.2 < pr.2) || resolve pr.1 (P.tokLevel la.1) == .reduce) &&
-    (!decide (pr.2 < la.2) || resolve pr.1 (P.tokLevel la.1) == .shift)) &&
+    (!decide (la.2.2 < pr.2.1) || resolve pr.1 (P.tokLevel la.1) == .reduce) &&
+    (!decide (pr.2.2 < la.2.1) || resolve pr.1 (P.tokLevel la.1) == .shift)) &&
   F.bins.all (fun o => !π.natural o || resolve (P.binProd o) (P.tokLevel o) == .reduce) &&
   F.pres.all (fun o => P.isPre o) &&
   F.bins.all (fun o => o != P.btwTok) &&
-  F.bins.contains P.andTok && decide (π.rkBin P.andTok < π.rkBtw)
+  F.bins.contains P.andTok && decide (grp π P.andTok < π.rkBtw)
 
 /-- tokens as text, for the driver -/
 def render (name : Nat → String) (btw and_ : String) : Expr → String
